@@ -539,6 +539,12 @@ func expectWhy(cs *Case) string {
 
 func dialBound(cs *Case) int {
 	b := 2 + cs.Pre // a fresh connection per exchange at worst, one retry
+	if cs.Kind == "h2" {
+		// the HTTP/2 round tripper (as golang.org/x/net's) sends a retryable request again up to 7 times
+		// (`retry <= 6`, the first retry at once, then exponential back-off): REFUSED_STREAM from the peer,
+		// GOAWAY, a connection that turned unusable.  Bounded and documented: not a loop.
+		b = 8 + cs.Pre
+	}
 	if cs.Opts.Digest {
 		b += 2
 	}
